@@ -337,7 +337,7 @@ def model_layer(run, rng, tier, model, m, cases, flag, clamp_need):
             kind = c["mres"].split()[1]
             kind_ok = {"constraint": "constraint failed", "toolarge": "value too large", "absent": "absent", "noalt": "no CHOICE element"}.get(kind, "") in full
         spec_ok = c["spec"] == "true"
-        viol = U.violated(U.base_of(c["t"], env), c["v"], env, slot=(c["t"]["k"] == "ref"))
+        viol = U.violated(U.base_of(c["t"], env), c["v"], env, slot=(c["t"]["k"] == "ref" or bool(c["t"].get("via"))))
         if (len(viol) == 0) != spec_ok:
             run.violation("oracle:self", dict(replay, what="the Python reading of the Spec and the Coq Spec disagree (harness defect)", python=str(viol)[:400], coq=c["spec"]), no_input=True)
             continue
@@ -556,6 +556,9 @@ def alphabet_layer(run, model, am, sites, where, acases, tag, opts, clamp_need, 
     keys, ql = [], []
     for c in acases:
         s = sites[c["sid"]]
+        if c["units"] is None:          # not a string of the type (odd octet count): Spec only
+            c["mk"] = None
+            continue
         k1 = ("achk", s.kind, s.got_size, A.alpha_s(s.canon), ",".join(map(str, c["units"])) or "-")
         k2 = ("size", U.parts_s(s.size), c["nchars"])
         for k in (k1, k2):
@@ -604,7 +607,7 @@ def alphabet_layer(run, model, am, sites, where, acases, tag, opts, clamp_need, 
         ret, L, full, _nr, _sw = parsed
         if not oe.startswith("%s %d EXACT" % (ret, L)) and oe != "CRASH":
             run.violation("oracle:chk", dict(replay, what="exact-buffer run disagrees with the guarded run", command_line=line, c=[o[1][:300], oe[:300]]))
-        ma, ms = _model_cache[c["mk"][0]], _model_cache[c["mk"][1]]
+        ma, ms = (_model_cache[c["mk"][0]], _model_cache[c["mk"][1]]) if c["mk"] else ("false" if c["bad"] else "true", "OK")
         if ma not in ("true", "false") or not (ms == "OK" or ms.startswith("FAIL")):
             run.violation("model:front-end", dict(replay, what="model driver could not evaluate a generated case", model=[ma, ms]), no_input=True)
             continue
